@@ -21,7 +21,9 @@ def c01_extra(prop,tier,seed,repo,reg,known):
     r['obligations']=[o for o in r['obligations'] if o['kind'] in('fixpoint',)]
   from zoo.run import run
   return res+run(['sim'],['A','C','M'],repo,seed,tier)
-def c02_extra(prop,tier,seed,repo,reg,known): return zoo_extra(['dag','sched'],['A','B','C','M'])(prop,tier,seed,repo,reg,known)
+def c02_extra(prop,tier,seed,repo,reg,known):
+  from zoo.run import run_meth
+  return zoo_extra(['dag','sched'],['A','B','C','M'])(prop,tier,seed,repo,reg,known)+run_meth(repo,seed,tier)
 def c07_extra(prop,tier,seed,repo,reg,known): return zoo_extra(['flip','fforder','sim'],['C'])(prop,tier,seed,repo,reg,known)
 def c11_extra(prop,tier,seed,repo,reg,known): return zoo_extra(['sim','dag'],['B'])(prop,tier,seed,repo,reg,known)
 def c08_extra(prop,tier,seed,repo,reg,known):
@@ -107,7 +109,7 @@ PROPERTIES={
    assumptions=["block footprints as extracted by AstHelper are the real ones; blocks are deterministic"]),
  'C02': dict(level='other',
    claim="Mixed. Proved: (1) SimpleSchedulePass.schedule_intra_cycle (the Kahn scheduler) - for arbitrary block sets, arbitrary constraint sets, every iteration order of the Python sets/dicts involved and every outcome of random.shuffle: on normal return update_schedule is a duplicate-free list of exactly the combinational blocks (final_upblks minus update_ff) in which every constraint (u,v) between scheduled blocks has u strictly before v, and an exception can only leave the function when not every block could be scheduled (check_schedule under its own contract); three loop invariants with ghost predecessor sets and a finite-set cardinality function; (2) Connectable._overlap decides bit-overlap of two index/slice ranges exactly (all integers). Bounded stand-in: on the design zoo (262 designs incl. struct fields, nested fields, overlapping slices, net forwarding, cycles, registers) GenDAGPass orders every writer block/net step before every block that reads an overlapping bit (bit ranges computed independently from the signal objects), constraint_objs covers the communicated bits, and every scheduler (dynamic; simple with 6 seeds; heuristic-topological) places each block exactly once and respects every constraint.",
-   note="GenDAGPass._process_value_constraints, HeuristicTopoPass, DynamicSchedulePass (SCC condensation) and Mamba2020Pass are not under discharged contracts (zoo only); lists whose order is irrelevant to the code (Q, Es[u], update_schedule) are abstracted by their element sets with duplicate-freeness proved at every append; positions are the ghost map 'number of blocks appended before'; finite-set cardinality facts (card >= 0, card = 0 iff empty, +-1 on insert/delete, subset with equal cardinality is equality) are assumed; MAMBA_DAG assumed unset; method constraints, WrapGreenletPass and OpenLoopCLPass are not covered. Labelled bounded.",
+   note="GenDAGPass._process_value_constraints, HeuristicTopoPass, DynamicSchedulePass (SCC condensation) and Mamba2020Pass are not under discharged contracts (zoo only); lists whose order is irrelevant to the code (Q, Es[u], update_schedule) are abstracted by their element sets with duplicate-freeness proved at every append; positions are the ghost map 'number of blocks appended before'; finite-set cardinality facts (card >= 0, card = 0 iff empty, +-1 on insert/delete, subset with equal cardinality is equality) are assumed; MAMBA_DAG assumed unset; method constraints and WrapGreenletPass only through 24 zoo designs (blocks calling blocking / non-blocking methods under M- or U-chains); OpenLoopCLPass is not covered. Labelled bounded.",
    explanation="one small function proved deductively; the pass-level contract is evaluated natively on an enumerated design zoo (bounded)",
    extra=['contracts:c02_extra'], require_cover=False, assumptions=["AstHelper read/write extraction"]),
  'C07': dict(level='other',
